@@ -125,12 +125,41 @@ func main() {
 		if *filter != "" {
 			mode = *filter
 		}
+		if replay != "" {
+			var c evalCase
+			mustReadJSON(replay, &c)
+			// the environment is the recorded one; results are recomputed
+			h := &hostEnv{specs: c.Env}
+			for i := range h.specs {
+				for k, f := range h.specs[i].Fields {
+					if m, ok := f[1].(map[string]interface{}); ok {
+						h.specs[i].Fields[k][1] = JVal{fmt.Sprint(m["k"]), fmt.Sprint(m["v"])}
+					}
+				}
+			}
+			h.materialise()
+			for k := range c.Rules {
+				c.Rules[k].Result = evalResult{}
+				c.Rules[k].Ast = nil
+			}
+			c.Build = ""
+			begin(&c)
+			runEvalCase(&c, h)
+			emit(&c)
+			return
+		}
 		for i := lo; i < hi; i++ {
 			r := newRng(*seed*1000003 + uint64(i))
 			c, h := genEvalCase(r, i, mode)
 			begin(c)
 			runEvalCase(c, h)
 			emit(c)
+			for _, ru := range c.Rules {
+				if ru.Result.Outcome == "hang" {
+					// the runaway execution is still running in this process: ask for a fresh one
+					os.Exit(3)
+				}
+			}
 		}
 	default:
 		fmt.Fprintf(os.Stderr, "unknown scenario %s\n", *scn)
